@@ -4,7 +4,7 @@ import grammars as G
 import panics
 import termimpls
 from core import Relang, CheckError, Finding
-from mirutil import patterns_by_owner, union_pattern, predicate_expr, blocks_with_agg, call_name_matches, provenance
+from mirutil import patterns_by_owner, union_pattern, predicate_expr, blocks_with_agg, call_name_matches, provenance, result_edges, leaf_calls, used_after_failure
 
 LEVEL = "other"
 EXPLANATION = (
@@ -28,8 +28,9 @@ TABLE = {
     "<loader::static_loader::StaticLoader<I, S> as json_ld::Loader<I, locspan::Location<I, S>>>::load_with::{closure#0}::{closure#1}#unwrap:unwrap:call:core::str::<impl str>::parse":
         (1, "parses the constant \"application/ld+json\""),
     "<vocabulary::ArcVoc as rdf_types::IriVocabulary>::iri#unwrap:unwrap:call:iref::Iri::<'a>::new":
-        (1, "re-parses an ArcIri: built by get() from an iref::Iri, or sophia-validated (L9.1.sub: sophia-valid => RFC 3987, "
-            "which iref accepts, A8)"),
+        (1, "re-parses an ArcIri: built by get() from an iref::Iri, or one of the two configured IRIs (document URL, base option), which "
+            "parse_json hands to iref first and refuses with an error (R8.10).  The earlier reason 'sophia-valid => RFC 3987, which iref "
+            "accepts' was refuted: iref 2.2.3 knows only the lower-case `v` of IPvFuture (`http://[V1.a]/`)"),
     "<vocabulary::ArcVoc as rdf_types::BlankIdVocabulary>::blank_id#unwrap:unwrap:call:rdf_types::BlankId::new":
         (1, "ArcBnode values are only constructed by get_blank_id from a valid rdf_types::BlankId (R8.6)"),
     "<vocabulary::ArcVoc as rdf_types::LanguageTagVocabulary>::language_tag#unwrap:unwrap:call:langtag::LanguageTag::<'a>::parse":
@@ -78,6 +79,10 @@ REFUTED_BACKEND_GUARANTEES = {
         "namespace, `ex:100\\%`, `ex:caf\uFFFD`, `@prefix ex: <http://example.org:> . ex:p`), and GTriG without a base (the default) "
         "copies whatever stands between `<` and `>` (spaces, `{`, a bare `%`): model::iri panics (debug_assert) in debug builds and "
         "builds an invalid IriRef in release builds",
+    "<vocabulary::ArcVoc as rdf_types::LanguageTagVocabulary>::get_language_tag#validator-call:LanguageTag:call:std::convert::From::from":
+        "json-ld's language tag type (langtag 0.3) accepts tags with empty subtags (`-nan`, `be--phonebk`, `-oed`), which LANG_TAG rejects: "
+        "ArcVoc::get_language_tag wraps them with LanguageTag::new_unchecked, whose check is an unconditional assert!: the parser panics in "
+        "every build on `{\"@value\":\"x\",\"@language\":\"-nan\"}`",
     "model::datatype#validator-call:IriRef:call:std::convert::Into::into":
         "same unvalidated prefixed-name concatenation in datatype position (`\"x\"^^ex:a\\#b`): model::datatype panics (debug_assert, "
         "rio/src/model.rs:135) in debug builds and builds an invalid IriRef in release builds",
@@ -97,6 +102,9 @@ VALIDATOR_CALLS = {
                          "finding on ArcVoc::get"),
     "<vocabulary::ArcVoc as rdf_types::LanguageTagVocabulary>::get_language_tag#validator-call:LanguageTag:call:std::convert::From::from":
         ("L8.1:bcp47", "langtag::LanguageTag (any well-formed BCP47 tag)"),
+    "<vocabulary::ArcVoc as rdf_types::LanguageTagVocabulary>::get_language_tag#validator-call:LanguageTag:map_unchecked":
+        ("R8.9", "the vocabulary trait is infallible: the tag is wrapped unchecked here and validated by try_convert_quad before any quad is "
+                 "delivered"),
     "<vocabulary::ArcBnode as sophia_api::prelude::Term>::bnode_id#validator-call:BnodeId:call:sophia_api::MownStr::<'a>::from_ref":
         ("L8.1:generated-label", "json-ld relabels every blank node with rdf_types::generator::Blank: `_:` + decimal counter"),
     "<vocabulary::ArcBnode as sophia_api::prelude::Term>::borrow_term#validator-call:BnodeId:call:std::ops::Index::index":
@@ -189,6 +197,10 @@ def language_obligations(ck, facts):
     return held
 
 
+# audited sites whose reason is a fact about this repository's code that a rule decides on every run
+RULE_BACKED = panics.norm_table({
+    "<vocabulary::ArcVoc as rdf_types::IriVocabulary>::iri#unwrap:unwrap:call:iref::Iri::<'a>::new": "R8.10",
+})
 VALIDATOR_CALLS = panics.norm_table(VALIDATOR_CALLS)
 REFUTED_BACKEND_GUARANTEES = panics.norm_table(REFUTED_BACKEND_GUARANTEES)
 
@@ -206,10 +218,163 @@ def reparse_of_validated_iri(site):
     return False
 
 
+CONVERSIONS = (r"convert::From(<[^>]*>)?>?::from$|convert::Into(<[^>]*>)?>?::into$|ToString::to_string$|MownStr::<'a>::from_ref$|"
+               r"::ensure_owned$|ToOwned::to_owned$|Clone::clone$|\{impl#\d+\}::from$|\{impl#\d+\}::from_ref$")
+
+
+def mapped_preserves(facts, fn, operand):
+    """Is the function handed to a wrapper's `map_unchecked` a mere conversion of the wrapped string (a `From`/`Into`/`to_string` item, or a
+    closure whose result is computed from its parameter)?  Otherwise the call builds a wrapper around a string that was never validated."""
+    o = fn.origin(operand)
+    if o[0] == "const" and o[1].get("kind") == "fn":
+        nm = "%s %s" % (o[1].get("def", ""), o[1].get("ty", ""))
+        return bool(re.search(CONVERSIONS, o[1].get("def", ""))) or bool(re.search(r"as std::convert::(From|Into)<[^{}]*>>::(from|into)\}$", nm)), nm
+    if o[0] == "agg" and o[1].get("k") == "closure":
+        cf = facts.fns.get(o[1]["def"])
+        if cf is None:
+            return False, "closure (no body)"
+        names = leaf_calls(cf, ["m", [0]])
+        return any(n.startswith("param:2") for n in names), "closure computing its result from %s" % (sorted(set(names)) or "nothing it was given")
+    return False, o[0]
+
+
+def unchecked_use_controls(ck):
+    import core
+    fx = core.fixture_facts()
+    for name, expect in (("pos_used_after_failed_check", True), ("neg_refused_after_failed_check", False), ("neg_refused_with_match", False),
+                         ("neg_refused_with_question_mark", False)):
+        fn = core.fixture_fn(name)
+        chk = [t for _, t in fn.calls() if call_name_matches(t, r"checked_token$")]
+        use = [bi for bi, t in fn.calls() if call_name_matches(t, r"consume_token$")]
+        ck.control("R8.9", name, len(chk) == 1 and used_after_failure(fn, chk[0], use), expect)
+    for name, expect in (("pos_map_replaces_wrapped", True), ("neg_map_converts_wrapped", False), ("neg_map_converts_with_item", False)):
+        fn = core.fixture_fn(name)
+        calls = [t for _, t in fn.calls() if call_name_matches(t, r"::map_unchecked$")]
+        ck.control("R8.2", name, len(calls) == 1 and not mapped_preserves(fx, fn, calls[0]["args"][1])[0], expect)
+
+
+def json_ld_language_tags_rule(ck, facts):
+    """R8.9: every quad json-ld delivers goes through try_convert_quad, which validates the language tag of a tagged literal with
+    LanguageTag::new and refuses the document on failure (the vocabulary could only wrap it unchecked)."""
+    tcq = [f for f in facts.fns.values() if f.crate == "sophia_jsonld" and re.search(r"parser::adapter::try_convert_quad$", f.name)]
+    if len(tcq) != 1:
+        ck.bad("R8.9", "R8.9@try_convert_quad#anchor", "anchor-missing: the checking conversion of json-ld quads (jsonld/src/parser/adapter.rs)")
+        return False
+    fn = tcq[0]
+    ok = True
+    conv = [(bi, t) for bi, t in fn.calls() if call_name_matches(t, r"parser::adapter::convert_quad$")]
+    checks = [(bi, t) for bi, t in fn.calls() if call_name_matches(t, r"sophia_api::term::LanguageTag::<T>::new$")
+              and any(n.startswith("param:1") for n in leaf_calls(fn, t["args"][0]))]
+    if not conv or not checks:
+        ck.bad("R8.9", "R8.9@try_convert_quad#shape", "try_convert_quad must validate the language tag of its argument with LanguageTag::new and then "
+               "call convert_quad (found %d validations of the parameter, %d conversions)" % (len(checks), len(conv)), fn.loc)
+        return False
+    for bi, t in checks:
+        u = used_after_failure(fn, t, [cb for cb, _ in conv])
+        if u is None:
+            ck.bad("R8.9", "R8.9@try_convert_quad#undecided", "the result of LanguageTag::new is not decided", "%s:%s" % (t["file"], t["line"]))
+            ok = False
+            continue
+        if u:
+            ck.bad("R8.9", "R8.9@try_convert_quad#converted-after-failure", "a quad whose language tag LanguageTag::new rejected still reaches "
+                   "convert_quad", "%s:%s" % (t["file"], t["line"]))
+            ok = False
+    # who may reference convert_quad: only try_convert_quad
+    others = []
+    for g in facts.fns.values():
+        if g.crate != "sophia_jsonld" or g is fn:
+            continue
+        for _, t in g.calls():
+            if call_name_matches(t, r"parser::adapter::convert_quad$"):
+                others.append(g.name)
+            for a in t["args"]:
+                if a[0] == "k" and a[1].get("kind") == "fn" and re.search(r"parser::adapter::convert_quad$", a[1].get("def", "")):
+                    others.append(g.name)
+    if others:
+        ck.bad("R8.9", "R8.9@convert_quad#unchecked-caller", "convert_quad (which trusts the language tags wrapped by ArcVoc) is used outside "
+               "try_convert_quad: %s" % sorted(set(others)))
+        ok = False
+    # the parser maps the delivered quads through it
+    users = []
+    for g in facts.fns.values():
+        if g.crate != "sophia_jsonld":
+            continue
+        for _, t in g.calls():
+            for a in t["args"]:
+                if a[0] == "k" and a[1].get("kind") == "fn" and re.search(r"parser::adapter::try_convert_quad$", a[1].get("def", "")):
+                    users.append(g.name)
+            if call_name_matches(t, r"parser::adapter::try_convert_quad$"):
+                users.append(g.name)
+    if not any(re.search(r"parse_json", u) for u in users):
+        ck.bad("R8.9", "R8.9@parse_json#unchecked-quads", "parse_json does not pass the quads of json-ld through try_convert_quad")
+        ok = False
+    if ok:
+        ck.ok("R8.9", "try_convert_quad validates language tags (%d check(s)), refuses on failure, is the only user of convert_quad, and is what "
+                      "parse_json maps json-ld's quads through" % len(checks))
+    return ok
+
+
+def json_ld_configured_iris_rule(ck, facts):
+    """R8.10: the two IRIs the caller configures (document URL, base option) are re-parsed by ArcVoc::iri with iref and unwrapped; iref
+    rejects some RFC 3987 IRIs, so parse_json must hand both to iref first and refuse with an error before the processor starts."""
+    cands = [f for f in facts.fns.values() if f.crate == "sophia_jsonld" and re.search(r"parser::JsonLdParser::<LF>::parse_json::\{closure#\d+\}$", f.name)]
+    cands = [f for f in cands if any(call_name_matches(t, r"JsonLdProcessor::to_rdf") for _, t in f.calls())]
+    if len(cands) != 1:
+        ck.bad("R8.10", "R8.10@parse_json#anchor", "anchor-missing: the body of parse_json that starts the json-ld processor")
+        return False
+    fn = cands[0]
+    starts = [bi for bi, t in fn.calls() if call_name_matches(t, r"JsonLdProcessor::to_rdf")]
+    checked = set()
+    bad = False
+    n = 0
+    for bi, t in fn.calls():
+        if not call_name_matches(t, r"^iref::Iri::<'a>::new$|^iref::Iri::new$|^iref::IriBuf::new$"):
+            continue
+        n += 1
+        u = used_after_failure(fn, t, starts)
+        if u is None:
+            continue
+        if u:
+            ck.bad("R8.10", "R8.10@parse_json#started-after-failure", "an IRI iref rejected still reaches the json-ld processor (ArcVoc::iri will "
+                   "unwrap the same failure)", "%s:%s" % (t["file"], t["line"]))
+            bad = True
+            continue
+        if not all(sb in fn.reachable(bi) for sb in starts):
+            continue
+        # every path to the processor passes the check, or the loop that performs it
+        names = leaf_calls(fn, t["args"][0], limit=80)
+        doms = fn.dominators()
+        loop_heads = [hb for hb, ht in fn.calls() if call_name_matches(ht, r"iter::Iterator::next$") and bi in fn.reachable(hb)]
+        guards = [bi] + loop_heads
+        if not all(any(g in doms.get(sb, ()) for g in guards) for sb in starts):
+            continue
+        if any(re.search(r"RemoteDocument::<I, M, T>::url$|RemoteDocument.*::url$", x) for x in names):
+            checked.add("document URL")
+        if any(re.search(r"JsonLdOptions::<LF>::inner$|JsonLdOptions.*::base$", x) for x in names):
+            checked.add("base option")
+    missing = [x for x in ("document URL", "base option") if x not in checked]
+    if missing and not bad:
+        ck.bad("R8.10", "R8.10@parse_json#configured-iri-unchecked", "parse_json starts the json-ld processor without handing the %s to iref first: "
+               "ArcVoc::iri re-parses it with iref::Iri::new(..).unwrap(), and iref 2.2.3 rejects IRIs sophia accepts (`http://[V1.a]/`: "
+               "upper-case IPvFuture), so every document panics with such a base (%d iref::Iri::new call(s) seen)" % (" and the ".join(missing), n),
+               fn.loc)
+        return False
+    if not bad:
+        ck.ok("R8.10", "parse_json hands the document URL and the base option to iref and returns an error before the processor starts")
+    return not bad
+
+
 def run(ck, facts, tier):
     facts.require_crates(["sophia_rio", "sophia_turtle", "sophia_xml", "sophia_jsonld", "sophia_api", "sophia_iri"])
     held = language_obligations(ck, facts)
     held["R9.4"] = True
+    unchecked_use_controls(ck)
+    lazy = {"R8.9": json_ld_language_tags_rule, "R8.10": json_ld_configured_iris_rule}      # decided when a site relies on them
+
+    def holds(ob):
+        if ob in lazy and ob not in held:
+            held[ob] = lazy[ob](ck, facts)
+        return held.get(ob, False)
     # R8.5
     n = termimpls.accessor_kind_rule(ck, facts, "R8.5")
     ck.floor("R8.5", "impl Term in the workspace", n, 32)
@@ -229,9 +394,19 @@ def run(ck, facts, tier):
     reach = panics.reachable_fns(facts, entries)
     sites = []
     for fid in sorted(reach):
-        sites += panics.sites_of(facts.fns[fid])
+        sites += panics.sites_of(facts.fns[fid], map_unchecked=True)
     panics.controls(ck, "R8.2")
     panics.classify(facts, sites, TABLE, validators=[VALIDATOR_ASSERT])
+    nmap = 0
+    for st in sites:
+        if st.kind == "map-unchecked":
+            nmap += 1
+            keeps, how = mapped_preserves(facts, st.fn, st.mapped)
+            if keeps:
+                st.status, st.reason = "auto", "map_unchecked with a conversion of the wrapped string (%s)" % how
+            else:
+                st.kind, st.detail = "validator-call", "map_unchecked"
+    ck.floor("R8.2", "map_unchecked calls reachable from the adapters", nmap, 2)
     ck.extra["panic_audit"] = dict(entry_functions=len(entries), reachable_functions=len(reach), sites=len(sites))
     seen_vc = {}
     for s in sites:
@@ -240,8 +415,8 @@ def run(ck, facts, tier):
             seen_vc[s.key] = seen_vc.get(s.key, 0) + 1
             if ent is None or seen_vc[s.key] > 1:
                 ck.bad("R8.2", "R8.2@" + s.key, "unaudited `new_unchecked` on data from a back-end: which validator language covers it?", s.loc)
-            elif not held.get(ent[0], False):
-                ck.bad("R8.2", "R8.2@" + s.key + "#undischarged", "`new_unchecked` relies on obligation %s, which does not hold" % ent[0], s.loc)
+            elif not holds(ent[0]):
+                ck.bad("R8.2", "R8.2@" + s.key + "#undischarged", "the unchecked construction relies on obligation %s, which does not hold" % ent[0], s.loc)
             elif s.key in REFUTED_BACKEND_GUARANTEES:
                 # L8.1 (the validator accepts what the back-end certainly delivers) holds, but the converse assumption A8
                 # (the back-end delivers nothing else) has been refuted by a reproduction for this token class
@@ -274,6 +449,11 @@ def run(ck, facts, tier):
                 ck.ok("R8.2", s.key, s.reason, nontrivial=False)
             else:
                 ck.bad("R8.2", "R8.2@" + s.key, "default accessor reachable: R8.5 fails", s.loc)
+        elif s.status == "audited" and s.key in RULE_BACKED:
+            if holds(RULE_BACKED[s.key]):
+                ck.ok("R8.2", s.key, "audited, and the reason is decided by %s: %s" % (RULE_BACKED[s.key], s.reason))
+            else:
+                ck.bad("R8.2", "R8.2@" + s.key + "#undischarged", "the audited reason of this site relies on %s, which does not hold" % RULE_BACKED[s.key], s.loc)
         elif s.status == "audited":
             ck.ok("R8.2", s.key, "audited: " + s.reason)
         elif re.search(r"::new_unchecked#unwrap:unwrap:call:.*::new$|LanguageTag::<T>::new_unchecked#panic-call:assert:regex::Regex::is_match$", s.key):
